@@ -56,6 +56,12 @@ func vh_C01_L5_ordered_reassembly() {
 // vh_C02_L1, whose delivery assertions are C01's statement).
 func vh_C01_E2E_reliable_transfer() { vh_C02_L1_reliable_transfer_one_fault() }
 
+// C01.L6: accepted messages are not lost to the stream's own close (the reset request never
+// overtakes the data written before it) nor to a failed write before them (no hole in the
+// sequence space): same obligations as C14.L1 and C18.L2.
+func vh_C01_L6_close_does_not_overtake_data() { vh_C14_L1_close_after_data_and_reuse() }
+func vh_C01_L6_failed_write_leaves_no_hole()  { vh_C18_L2_block_write_gate() }
+
 // C01.L4b / C05.L0: the TSN tracking structure built by the real constructor for any
 // receive-buffer size can tell apart every TSN of the window it admits (two TSNs of one
 // window sharing a slot would make a never-received chunk look like a duplicate).
